@@ -40,6 +40,7 @@ type Op struct {
 	N    int    `json:"n,omitempty"`
 	Ref  string `json:"ref,omitempty"`
 	Last string `json:"last,omitempty"`
+	Av   int    `json:"av,omitempty"` // tag: which annotations the descriptor handed to Tag carries (0: the node's own)
 }
 
 type Scenario struct {
@@ -50,8 +51,8 @@ type Scenario struct {
 	AutoGC   bool          `json:"autogc"`
 	AutoSave bool          `json:"autosave"`
 	Ops      []Op          `json:"ops"`
-	Reopen   string        `json:"reopen"` // "all": reopen three ways after every mutating op; "end": only at the end
-	Annot    []bool        `json:"annot"`  // OCI: the descriptor used to tag node k carries annotations
+	Reopen   string        `json:"reopen"`        // "all": reopen three ways after every mutating op; "end": only at the end
+	Annot    []bool        `json:"annot"`         // OCI: the descriptor used to tag node k carries annotations
 	Par      []Op          `json:"par,omitempty"` // concurrent tail: operations run as goroutines after Ops
 	Prefix   []int         `json:"prefix,omitempty"`
 	Seed     int64         `json:"seed,omitempty"`
@@ -241,6 +242,15 @@ func (r *runner) reopen(ctx context.Context, mode string) {
 	switch mode {
 	case "rw":
 		st, err = oci.New(r.dir)
+	case "rwcancel":
+		// opened with a context that is already cancelled: either an error, or a store that shows the same state
+		cctx, cancel := context.WithCancel(ctx)
+		cancel()
+		st, err = oci.NewWithContext(cctx, r.dir)
+		if err != nil {
+			return
+		}
+		mode = "rw"
 	case "fs":
 		st, err = oci.NewFromFS(ctx, os.DirFS(r.dir))
 	case "tar":
@@ -366,7 +376,7 @@ func RunOne(t *testing.T, sc *Scenario, tr *vh.Tracer, base string) bool {
 		}
 		tr.Emit(r.disk())
 		if sc.Reopen == "all" || last || op == "delete" || op == "gc" {
-			for _, m := range []string{"rw", "fs", "tar"} {
+			for _, m := range []string{"rw", "fs", "tar", "rwcancel"} {
 				r.reopen(ctx, m)
 			}
 		} else {
@@ -393,8 +403,18 @@ func RunOne(t *testing.T, sc *Scenario, tr *vh.Tracer, base string) bool {
 				m["res"] = "refused"
 			}
 		case "tag":
-			m["res"] = cls(st.Tag(ctx, tagdesc[op.N], op.Ref))
-			m["ann"] = annSig(tagdesc[op.N].Annotations)
+			td := tagdesc[op.N]
+			if op.Av != 0 {
+				// the same content described with other annotations: Resolve must answer with the latest descriptor
+				td = r.desc[op.N]
+				ann := map[string]string{"verif.variant": fmt.Sprint("v", op.Av)}
+				for k, v := range td.Annotations {
+					ann[k] = v
+				}
+				td.Annotations = ann
+			}
+			m["res"] = cls(st.Tag(ctx, td, op.Ref))
+			m["ann"] = annSig(td.Annotations)
 		case "untag":
 			m["res"] = cls(ost.Untag(ctx, op.Ref))
 		case "delete":
@@ -597,7 +617,7 @@ func genScenario(rng *rand.Rand, kind string) Scenario {
 		case x < 14:
 			sc.Ops = append(sc.Ops, Op{Op: "push", N: node()})
 		case x < 34:
-			sc.Ops = append(sc.Ops, Op{Op: "tag", N: node(), Ref: ref()})
+			sc.Ops = append(sc.Ops, Op{Op: "tag", N: node(), Ref: ref(), Av: []int{0, 0, 1, 2}[rng.Intn(4)]})
 		case x < 42:
 			sc.Ops = append(sc.Ops, Op{Op: "resolve", Ref: append(refs, "", "missing")[rng.Intn(len(refs)+2)]})
 		case x < 48:
@@ -639,13 +659,42 @@ func genScenario(rng *rand.Rand, kind string) Scenario {
 			}
 			return ref()
 		}
+		if rng.Intn(3) == 0 {
+			// racing pushes of one node that is still absent (and a tag of it): at most one push may be told "ok"
+			absent := 0
+			for _, k := range rng.Perm(n) {
+				pushed := false
+				for _, o := range sc.Ops {
+					pushed = pushed || (o.Op == "push" && o.N == k+1)
+				}
+				if !pushed {
+					absent = k + 1
+					break
+				}
+			}
+			if absent == 0 {
+				absent = 1 + rng.Intn(n)
+				var ops []Op
+				for _, o := range sc.Ops {
+					if !(o.Op == "push" && o.N == absent) {
+						ops = append(ops, o)
+					}
+				}
+				sc.Ops = ops
+			}
+			sc.Par = []Op{{Op: "push", N: absent}, {Op: "push", N: absent}}
+			if rng.Intn(2) == 0 {
+				sc.Par = append(sc.Par, Op{Op: "tag", N: absent, Ref: hotref})
+			}
+			return sc
+		}
 		for k := 2 + rng.Intn(2); k > 0; k-- {
 			x := rng.Intn(100)
 			switch {
 			case x < 25:
 				sc.Par = append(sc.Par, Op{Op: "push", N: pn()})
 			case x < 55:
-				sc.Par = append(sc.Par, Op{Op: "tag", N: pn(), Ref: pr()})
+				sc.Par = append(sc.Par, Op{Op: "tag", N: pn(), Ref: pr(), Av: []int{0, 1, 2}[rng.Intn(3)]})
 			case x < 62:
 				sc.Par = append(sc.Par, Op{Op: "fetch", N: pn()})
 			case x < 66:
